@@ -63,6 +63,9 @@ pub fn gen_c14(run: &mut Run, seed: u64, thorough: bool) {
                     5 => (receiver.tok(), if *right == receiver { "right" } else { "receiver" }),
                     6 => (format!("{}!", right.tok()), "right-other-args"),
                     7 if has_subs => (format!("{}~", right.tok()), "right-root-only"),
+                    // blanket authorisation (every address authorises whatever is asked of it, with whatever arguments): shows
+                    // sub-calls whose arguments differ from the stated ones, which exact authorisation trees would refuse
+                    8 | 9 => ("*".into(), "everyone"),
                     _ => (right.tok(), "right"),
                 }
             };
